@@ -679,6 +679,14 @@ EqModFloat(d, a, b) ==
            /\ \A i \in 1 .. Len(a.kv) : b.kv[i].k = a.kv[i].k /\ EqModFloat(TypeOf(d, a.kv[i].k), a.kv[i].v, b.kv[i].v)
       [] OTHER -> a = b
 
+(* C02 for commands: a call hands an argument value to the driver and a result value back to the caller; *)
+(* both cross the wire like parameter values, so both obey the round trip law of their own datatype        *)
+CmdCalls(d) ==
+    LET as == IF d.arg.k = "none" THEN <<Null>> ELSE SetToSeq(VS(d.arg))
+        rs == IF d.res.k = "none" THEN <<Null>> ELSE SetToSeq(VS(d.res))
+        n == Max2(Len(as), Len(rs)) IN
+    {[a |-> as[((s - 1) % Len(as)) + 1], r |-> rs[((s - 1) % Len(rs)) + 1]] : s \in 1 .. n}
+
 RECURSIVE HasFloat(_)
 HasFloat(d) == CASE d.k \in {"double", "scaled", "gscaled"} -> TRUE
                  [] d.k = "array" -> HasFloat(d.el)
@@ -694,6 +702,10 @@ RoundTripLaw(d) == \A v \in VS(d) :
     /\ Val(d, Export(d, v), None, "wire") = {Ok(v)}
     /\ Val(d, v, None, "write") = {Ok(v)}
     /\ EqModFloat(d, v, v)
+
+CmdRoundTripLaw(d) == /\ d.arg.k # "none" => RoundTripLaw(d.arg)         \* what the driver receives = what the caller passed
+                      /\ d.res.k # "none" => RoundTripLaw(d.res)         \* what the caller gets = what the driver returned
+                      /\ CmdCalls(d) # {}
 
 (* ------------------------------------------- C03: description, rebuild, compatibility *)
 (* A datainfo is an abstract JSON object O(kv): keys sorted (member order kept for the       *)
@@ -1007,6 +1019,13 @@ Commands == <<Cmd(NoT, NoT), Cmd(IntT(0, 10), NoT), Cmd(IntT(0, 5), NoT), Cmd(No
               Cmd(Tup(<<IntT(0, 10), Strg(1, 3, FALSE)>>), Enm(<<[n |-> "off", v |-> 0], [n |-> "on", v |-> 1]>>)),
               Cmd(AB(IntT(0, 10), Strg(0, 8, TRUE), <<"b">>), Arr(Scl(4, 0, 160), 0, 2)),
               Cmd(GScl("0.1", 3, 7), Text(5))>>
+(* C02: commands over all ordered pairs of a small set of argument / result types (none included) *)
+CmdSmall == <<NoT, Scl(4, 0, 160), Blob(1, 3), Enm(<<[n |-> "off", v |-> 0], [n |-> "on", v |-> 1]>>),
+              Tup(<<IntT(0, 10), Strg(1, 3, FALSE)>>), Arr(Scl(4, 0, 160), 0, 2), AB(IntT(0, 10), Blob(0, 6), <<"b">>),
+              GScl("0.1", 3, 7), BigT(P(1, 1), P(4, -1)), IntT(0, 10), Dbl(0, 160, 4, 0), BoolT, Strg(0, 8, TRUE)>>
+NCm == Len(CmdSmall)
+CmdPairs == SelectSeq([i \in 1 .. NCm * NCm |-> Cmd(CmdSmall[((i - 1) \div NCm) + 1], CmdSmall[((i - 1) % NCm) + 1])],
+                      LAMBDA c : c.arg # c.res \/ c.arg = NoT)
 CTypes(tier) == IF tier = "thorough" THEN CLeaves \o CContainers \o Commands \o Depth2
                 ELSE CLeaves \o CContainers \o Commands \o <<Text(5), Text(NoLim), Lim(IntT(0, 10)), Lim(Dbl(0, 160, 0, 0))>>
 (* types whose description / rebuild / copy is examined: the C01 catalogue with presentation properties *)
@@ -1020,6 +1039,7 @@ TypeSeq(tier) == CASE tier \in {"mc", "quick", "thorough"} -> BaseSeq(tier)
                    [] tier = "c-thorough" -> CTypes("thorough")
                    [] tier = "r-quick" -> SubSeq(ETypes("quick"), 1, Len(BaseSeq("quick")))          \* C02: value types with fmtstr / unit / resolutions
                    [] tier = "r-thorough" -> SubSeq(ETypes("thorough"), 1, Len(BaseSeq("thorough")))
+                   [] tier \in {"x-quick", "x-thorough"} -> CmdPairs
                    [] tier = "e-quick" -> ETypes("quick")
                    [] tier = "e-thorough" -> ETypes("thorough")
 
@@ -1060,6 +1080,7 @@ Idempotent == IdempotentR(dt, CaseRecs(dt))
 PrevFree == PrevFreeR(dt, CaseRecs(dt))
 NonVacuous == NonVacuousR(dt, CaseRecs(dt))
 RoundTrip == RoundTripLaw(dt) /\ VS(dt) # {}
+CmdRoundTrip == CmdRoundTripLaw(dt)
 (* every type is compatible with itself, and compatibility by meaning is transitive on the catalogue *)
 CompatSane ==
     IF HasLimit(dt) THEN AllowedPass(dt, dt) = {TRUE, FALSE}
